@@ -11,6 +11,25 @@
 // at which level to switch from computations by level to computations by block
 #define CHANGE_MODE_N 1024
 
+#ifdef SPQLIOS_VERIF
+#include "../commons_private.h"
+// verification hook: after each stage, reports (direction, stage kind, nn, offset of the block in q120b elements,
+// index of the level metadata used) and the per-prime maximum over the lanes just written
+static void verif_ntt_stage(int64_t dir, int64_t kind, uint64_t nn, const void* base, const void* b, const void* e,
+                            const q120_ntt_precomp* pc, const q120_ntt_step_precomp* it) {
+  uint64_t mx[4] = {0, 0, 0, 0};
+  for (const uint64_t* p = (const uint64_t*)b; p != (const uint64_t*)e; p += 4)
+    for (int k = 0; k < 4; ++k)
+      if (p[k] > mx[k]) mx[k] = p[k];
+  spqlios_verif_event(30, dir * 16 + kind, (int64_t)nn, ((const uint64_t*)b - (const uint64_t*)base) / 4,
+                      (int64_t)(it - pc->level_metadata), ((const uint64_t*)e - (const uint64_t*)b) / 4);
+  spqlios_verif_event(31, (int64_t)mx[0], (int64_t)mx[1], (int64_t)mx[2], (int64_t)mx[3], 0);
+}
+#define VERIF_NTT_STAGE(dir, kind, nn, base, b, e, pc, it) verif_ntt_stage(dir, kind, nn, base, b, e, pc, it)
+#else
+#define VERIF_NTT_STAGE(dir, kind, nn, base, b, e, pc, it) ((void)0)
+#endif
+
 __always_inline __m256i split_precompmul_si256(__m256i inp, __m256i powomega, const uint64_t h, const __m256i mask) {
   const __m256i inp_low = _mm256_and_si256(inp, mask);
   const __m256i t1 = _mm256_mul_epu32(inp_low, powomega);
@@ -192,6 +211,7 @@ EXPORT void q120_ntt_bb_avx2(const q120_ntt_precomp* const precomp, q120b* const
 
   // first iteration a_k.omega^k
   ntt_iter_first(begin, end, itData, powomega);
+  VERIF_NTT_STAGE(0, 0, n, begin, begin, end, precomp, itData);
 
   if (CHECK_BOUNDS) {
     double bs __attribute__((unused)) = max_bit_size((void*)begin, (void*)end);
@@ -214,6 +234,7 @@ EXPORT void q120_ntt_bb_avx2(const q120_ntt_precomp* const precomp, q120b* const
     } else {
       ntt_iter(nn, begin, end, itData, powomega);
     }
+    VERIF_NTT_STAGE(0, itData->reduce ? 2 : 1, nn, begin, begin, end, precomp, itData);
 
     if (CHECK_BOUNDS) {
       double bs __attribute__((unused)) = max_bit_size((void*)begin, (void*)end);
@@ -243,6 +264,7 @@ EXPORT void q120_ntt_bb_avx2(const q120_ntt_precomp* const precomp, q120b* const
         } else {
           ntt_iter(nn, begin1, end1, itData, powomega);
         }
+        VERIF_NTT_STAGE(0, itData->reduce ? 2 : 1, nn, begin, begin1, end1, precomp, itData);
 
         if (CHECK_BOUNDS) {
           double bs __attribute__((unused)) = max_bit_size((uint64_t*)begin1, (uint64_t*)end1);
@@ -430,6 +452,7 @@ EXPORT void q120_intt_bb_avx2(const q120_ntt_precomp* const precomp, q120b* cons
         } else {
           intt_iter(nn, begin1, end1, itData, powomega);
         }
+        VERIF_NTT_STAGE(1, itData->reduce ? 2 : 1, nn, begin, begin1, end1, precomp, itData);
 
         if (CHECK_BOUNDS) {
           double bs __attribute__((unused)) = max_bit_size((uint64_t*)begin1, (uint64_t*)end1);
@@ -453,6 +476,7 @@ EXPORT void q120_intt_bb_avx2(const q120_ntt_precomp* const precomp, q120b* cons
     } else {
       intt_iter(nn, begin, end, itData, powomega);
     }
+    VERIF_NTT_STAGE(1, itData->reduce ? 2 : 1, nn, begin, begin, end, precomp, itData);
 
     if (CHECK_BOUNDS) {
       double bs __attribute__((unused)) = max_bit_size((void*)begin, (void*)end);
@@ -470,6 +494,7 @@ EXPORT void q120_intt_bb_avx2(const q120_ntt_precomp* const precomp, q120b* cons
   } else {
     ntt_iter_first(begin, end, itData, powomega);
   }
+  VERIF_NTT_STAGE(1, itData->reduce ? 3 : 0, n, begin, begin, end, precomp, itData);
 
   if (CHECK_BOUNDS) {
     double bs __attribute__((unused)) = max_bit_size((void*)begin, (void*)end);
